@@ -204,18 +204,97 @@ template<typename D> void bfs(int maxdepth) {
     }
 }
 
+
+// ---- re-entrant histories: a subscriber that assigns to the Observable from inside its callback.  The property's last sentence is the oracle: with the default equality a
+// recording subscriber always holds the current value() - here: every notification a recorder receives carries the value() of that moment, and after each top-level operation
+// every recorder that was notified holds value().  How many notifications a recorder gets when rounds nest is not constrained.
+template<typename D> struct ReSys {
+    using T = typename D::T;
+    using Obs = Observable<T, typename D::Eq>;
+    // subscriber kinds in subscription order: 'r' recorder, 's' setter (assigns K from inside its callback)
+    static void run(const std::string &order, int kidx, int init, const std::vector<Op> &ops, const std::string &hist) {
+        auto vals = D::values();
+        T K = vals[kidx];
+        Obs x(D::initials()[init], D::eq());
+        struct Rec { bool got = false; T last{}; };
+        std::vector<Rec> recs(order.size());
+        std::vector<typename Obs::Subject_t::Subscription_t> subs(order.size());
+        int depth = 0; bool stale = false; std::string stale_msg;
+        for (size_t i = 0; i < order.size(); i++) {
+            if (order[i] == 'r') subs[i] = x.subscribe([&, i](const T &v) {
+                recs[i].got = true; recs[i].last = v;
+                if (!(v == x.value()) && !stale) { stale = true; stale_msg = fmt("subscriber %zu was notified with %s while value() is %s", i, show(v).c_str(), show(x.value()).c_str()); }
+            });
+            else subs[i] = x.subscribe([&](const T &) { if (depth < 4) { depth++; x = K; depth--; } });
+        }
+        bool has_setter = order.find('s') != std::string::npos;
+        T mval = D::initials()[init];
+        for (size_t oi = 0; oi < ops.size(); oi++) {
+            const Op &o = ops[oi];
+            for (auto &r : recs) r.got = false;
+            T old = mval, nv = old; bool notify = false;
+            switch (o.kind) {
+            case ASSIGN: nv = vals[o.arg]; notify = !(old == nv); x = nv; break;
+            case ADD: nv += vals[o.arg]; if (!D::in_bounds(nv)) return; notify = !(old == nv); x += vals[o.arg]; break;
+            case APPLY_SET: nv = vals[o.arg]; notify = !(old == nv); { T v = nv; x.apply([v](T &t) { t = v; }); } break;
+            case PREINC: if constexpr (D::arithmetic) { ++nv; if (!D::in_bounds(nv)) return; notify = true; ++x; } break;
+            case POSTDEC: if constexpr (D::arithmetic) { --nv; if (!D::in_bounds(nv)) return; notify = true; x--; } break;
+            default: return;
+            }
+            mval = notify && has_setter ? K : nv;
+            shm->transitions++; shm->evaluations++; if (notify) shm->nontrivial++;
+            std::string what = fmt("after top-level operation #%zu (%s)", oi + 1, op_str(o).c_str());
+            if (!(x.value() == mval)) violation("reentrant:value", fmt("%s value() == %s, expected %s", what.c_str(), show(x.value()).c_str(), show(mval).c_str()), hist);
+            if (stale) violation("reentrant:stale-notification", what + ": " + stale_msg + " (every notification must carry the current value)", hist);
+            for (size_t i = 0; i < order.size(); i++) if (order[i] == 'r') {
+                if (recs[i].got != notify) violation("reentrant:notified", fmt("%s subscriber %zu was %snotified, expected %s", what.c_str(), i, recs[i].got ? "" : "not ", notify ? "a notification" : "none"), hist);
+                if (recs[i].got && !(recs[i].last == x.value())) violation("reentrant:subscriber-out-of-date", fmt("%s subscriber %zu last saw %s but value() is %s", what.c_str(), i, show(recs[i].last).c_str(), show(x.value()).c_str()), hist);
+            }
+            stale = false;
+        }
+    }
+};
+
+template<typename D> void reentrant(int maxops) {
+    std::vector<Op> alpha;
+    int nv = (int)D::values().size();
+    for (int v = 0; v < nv; v++) for (int k : {ASSIGN, ADD, APPLY_SET}) alpha.push_back(Op{k, v});
+    if (D::arithmetic) { alpha.push_back(Op{PREINC, 0}); alpha.push_back(Op{POSTDEC, 0}); }
+    for (const char *order : {"s", "sr", "rs", "rsr", "srr", "rrs", "ss", "srs"}) for (int k = 0; k < nv; k++) for (int init = 0; init < (int)D::initials().size(); init++) {
+        std::vector<std::vector<Op>> hs{{}};
+        for (size_t qi = 0; qi < hs.size(); qi++) {
+            if (deadline_passed()) { shm->exhaustive = 0; return; }
+            auto h = hs[qi];
+            if ((int)h.size() < maxops) for (auto &o : alpha) { auto h2 = h; h2.push_back(o); hs.push_back(h2); }
+            if (h.empty()) continue;
+            std::string hist = fmt("reentrant type=%s order=%s k=%d init=%d :", D::name, order, k, init); for (auto &o : h) hist += " " + op_str(o);
+            mark(hist);
+            ReSys<D>::run(order, k, init, h, hist);
+            shm->states++;
+        }
+    }
+}
+
 void explore() {
     int depth = thorough() ? 8 : 6;
     bfs<IntDom>(depth); bfs<FloatDom>(depth); bfs<StrDom>(thorough() ? 6 : 5);
     bfs<WideFloatDom>(depth - 1); bfs<BucketDom>(depth - 1); bfs<BigFloatDom>(depth - 1);
+    reentrant<IntDom>(thorough() ? 4 : 3); reentrant<StrDom>(thorough() ? 4 : 3);
     shm->validated = shm->transitions;
     sx::detail(fmt("breadth-first search over histories of =, +=, -=, *=, /=, ++x, x++, --x, x--, apply(identity/set/add), subscribe, unsubscribe (2 subscriber slots) from several initial values for Observable<int>, "
                    "Observable<float, NearEq(0.5)>, Observable<std::string>, and (one level shallower) Observable<float, NearEq(1.5)> and Observable<int, same-bucket-of-4> whose equality is coarser than one ++/-- step and Observable<float> around 2^24 where +-1 is not representable; states are merged on (stored value, subscriber set and order, values last seen by the subscribers); every state reachable within depth %d is expanded "
-                   "(value magnitude bounded so that int/float arithmetic stays exact)", depth));
+                   "(value magnitude bounded so that int/float arithmetic stays exact); plus re-entrant histories: subscriber orders {s, sr, rs, rsr, srr, rrs, ss, srs} (r = recorder, s = subscriber that assigns a constant K to the Observable from inside its callback) x every K x every sequence of <= %d top-level operations for int and string: every notification carries the then-current value() and every notified recorder holds value() afterwards", depth, thorough() ? 4 : 3));
 }
 
 void replay(const std::string &hist) {
     char ty[32]; int init;
+    if (hist.compare(0, 10, "reentrant ") == 0) {
+        char ord[16]; int k;
+        if (sscanf(hist.c_str(), "reentrant type=%31s order=%15s k=%d init=%d :", ty, ord, &k, &init) != 4) { violation("replay:parse", "cannot parse " + hist); return; }
+        std::vector<Op> h; if (!parse_ops(hist.substr(hist.find(':') + 1), h)) { violation("replay:parse", "cannot parse ops in " + hist); return; }
+        if (std::string(ty) == "int") ReSys<IntDom>::run(ord, k, init, h, hist); else ReSys<StrDom>::run(ord, k, init, h, hist);
+        return;
+    }
     if (sscanf(hist.c_str(), "type=%31s init=%d :", ty, &init) != 2) { violation("replay:parse", "cannot parse " + hist); return; }
     std::vector<Op> h;
     if (!parse_ops(hist.substr(hist.find(':') + 1), h)) { violation("replay:parse", "cannot parse ops in " + hist); return; }
